@@ -36,16 +36,18 @@ Theorem C04_parse_print : forall up v, json_ok v = true -> parse_json (print up 
 Proof. exact parse_print. Qed.
 Print Assumptions C04_parse_print.
 
-(* util.event_as_json on an admitted event (hex id/pubkey/sig: C03) IS the print of its frame value *)
-Theorem C04_event_as_json_is_print : forall sub w, hex_fields_ok w = true ->
+(* util.event_as_json on an admitted event (event_ok: lower-case hex id/pubkey/sig, tag items strings
+   or integers - what C03's admission check guarantees, Props/C03.v C03_admitted_is_c04_wf) IS the
+   print of its frame value *)
+Theorem C04_event_as_json_is_print : forall sub w, event_ok w = true ->
   event_as_json sub (raw_of w) = Some (print false (event_frame_value sub w)).
 Proof. exact event_as_json_is_print. Qed.
 Print Assumptions C04_event_as_json_is_print.
 
 (* (a) every EVENT frame parses to ["EVENT", sub, {event}] with sub EQUAL to the string handed to
    the serializer (the client's subscription id; str() of it for non-string ids, R3) - for every
-   sub, every content and every tag array of strings *)
-Theorem C04_event_frame : forall sub w, hex_fields_ok w = true ->
+   sub, every content and every tag array of strings / integers *)
+Theorem C04_event_frame : forall sub w, event_ok w = true ->
   exists raw, event_as_json sub (raw_of w) = Some raw /\ frame_is raw (event_frame_value sub w).
 Proof. exact event_frame_parses. Qed.
 Print Assumptions C04_event_frame.
@@ -63,13 +65,13 @@ Print Assumptions C04_hex_roundtrip_iff.
 
 (* (b) codec_roundtrip: both row encodings give back the admitted event field for field *)
 Theorem C04_codec_roundtrip_kv : forall now w row,
-  kv_encode w = Some row -> hex_fields_ok w = true -> w_id w <> [] -> w_created_at w <> 0%Z ->
+  kv_encode w = Some row -> event_ok w = true -> w_id w <> [] -> w_created_at w <> 0%Z ->
   kv_decode now row = Some w.
 Proof. exact kv_roundtrip. Qed.
 Print Assumptions C04_codec_roundtrip_kv.
 
 Theorem C04_codec_roundtrip_db : forall now w row,
-  db_encode w = Some row -> hex_fields_ok w = true -> w_id w <> [] -> w_created_at w <> 0%Z ->
+  db_encode w = Some row -> event_ok w = true -> w_id w <> [] -> w_created_at w <> 0%Z ->
   db_decode now row = Some w.
 Proof. exact db_roundtrip. Qed.
 Print Assumptions C04_codec_roundtrip_db.
@@ -77,13 +79,13 @@ Print Assumptions C04_codec_roundtrip_db.
 (* (b) every served event, on every serving path, is the admitted event; hence the frame it is
    served in denotes exactly the admitted event (so id and signature still verify: same fields) *)
 Theorem C04_served_verbatim : forall now p w w',
-  hex_fields_ok w = true -> w_id w <> [] -> w_created_at w <> 0%Z ->
+  event_ok w = true -> w_id w <> [] -> w_created_at w <> 0%Z ->
   served now p w = Some w' -> w' = w.
 Proof. exact served_verbatim. Qed.
 Print Assumptions C04_served_verbatim.
 
 Theorem C04_served_frame : forall now p sub w w',
-  hex_fields_ok w = true -> w_id w <> [] -> w_created_at w <> 0%Z ->
+  event_ok w = true -> w_id w <> [] -> w_created_at w <> 0%Z ->
   served now p w = Some w' ->
   exists raw, event_as_json sub (raw_of w') = Some raw /\ frame_is raw (event_frame_value sub w).
 Proof.
@@ -94,7 +96,8 @@ Print Assumptions C04_served_frame.
 (* ---------- non-vacuity ---------- *)
 Definition ex_event : wevent :=
   mkW (pys "00ab") (pys "cdef") 1700000000 1
-      [[pys "e"; pys "x""y\z"]; [pys "t"; [0; 10; 31; 127; 128512; 1114111]%N]; [pys "d"]]
+      [[JStr (pys "e"); JStr (pys "x""y\z")]; [JStr (pys "t"); JStr [0; 10; 31; 127; 128512; 1114111]%N]; [JStr (pys "d")];
+       [JStr (pys "expiration"); JInt 1672329427]]
       [34; 92; 8; 12; 10; 13; 9; 1; 128512]%N (pys "0123456789abcdef").
 
 Example C04_ex_frame :
@@ -130,3 +133,20 @@ Example C04_nonstring_tag_item_unparsable :
   | None => False
   end.
 Proof. vm_compute. reflexivity. Qed.
+
+(* ---------- tie to the source, re-checked on every run ---------- *)
+(* tools/pyfrag.d/frames_c04.py regenerates Gen/Frames.v from the f-strings of util.event_as_json
+   and web.send_subscriptions in /repo's working tree; they must be the templates the model interprets *)
+From NR Require Gen.Frames.
+Theorem C04_source_templates :
+  Gen.Frames.event_template = model_event_template /\ Gen.Frames.eose_template = model_eose_template.
+Proof. split; reflexivity. Qed.
+Print Assumptions C04_source_templates.
+
+Theorem C04_templates_are_the_model : forall sub e,
+  interp sub e Gen.Frames.event_template = event_as_json sub e /\
+  interp sub e Gen.Frames.eose_template = Some (eose_frame true sub).
+Proof.
+  intros. destruct C04_source_templates as [-> ->]. split; [apply interp_event_template | apply interp_eose_template].
+Qed.
+Print Assumptions C04_templates_are_the_model.
